@@ -374,6 +374,9 @@ def run_c09(ctx, replay=None):
     if not replay:
         import sealsched
         sealsched.run_part(ctx)
+        # several groups of one account at once (account / contact groups share the device key), MonMultiGroup.tla
+        import multigroup
+        multigroup.run_part(ctx)
     ctx.assumptions += ["real-parallel executions come from the Go scheduler (plus seeded delays in the datastore wrapper), not from TLC; TLC validates the recordings",
                         "controlled schedules are exhaustive only at the gates (chain-key reads, datastore mutations, call begin); a thread waiting for the mutex is detected from its goroutine wait state",
                         "in-memory map behind the recording datastore; TLC 1.8.0 and the Go toolchain trusted"]
